@@ -356,15 +356,17 @@ func Structured(thorough bool) []Lazy {
 	})
 	// RFC 6902 grammar
 	toks := []string{"m", "missing", "0", "1", "-", "-1", "00", "99999999999", "~0", "~1", "~2", ""}
-	var ptrs []string
-	ptrs = append(ptrs, "")
+	var p1, ptrs, p3 []string // pointers of depth <= 1, <= 2, and the depth-3 extras (thorough)
+	ptrs = append(ptrs, "", "m", "x/m", "x/m/n", "x/a/0", " /m")
+	p1 = append(p1, "", "x/m")
 	for _, a := range toks {
 		ptrs = append(ptrs, "/"+a)
+		p1 = append(p1, "/"+a)
 		for _, b := range toks {
 			ptrs = append(ptrs, "/"+a+"/"+b)
 			if thorough {
 				for _, c := range []string{"0", "-1", "n", "-"} {
-					ptrs = append(ptrs, "/"+a+"/"+b+"/"+c)
+					p3 = append(p3, "/"+a+"/"+b+"/"+c)
 				}
 			}
 		}
@@ -373,14 +375,23 @@ func Structured(thorough bool) []Lazy {
 	kinds := []string{"add", "remove", "replace", "move", "copy", "test"}
 	var single []string
 	for _, k := range kinds {
-		for _, p := range ptrs {
+		for _, p := range append(append([]string{}, ptrs...), p3...) {
 			switch k {
 			case "move", "copy":
-				for _, f := range ptrs {
+				froms := ptrs
+				if len(strings.Split(p, "/")) > 3 {
+					froms = p1 // depth-3 targets are paired with short sources only
+				}
+				for _, f := range froms {
 					if !thorough && len(f) > 6 && len(p) > 6 {
 						continue
 					}
 					single = append(single, fmt.Sprintf(`{"op":%q,"path":%q,"from":%q}`, k, p, f))
+				}
+				if len(strings.Split(p, "/")) <= 2 {
+					for _, f := range p3 {
+						single = append(single, fmt.Sprintf(`{"op":%q,"path":%q,"from":%q}`, k, p, f))
+					}
 				}
 			case "remove":
 				single = append(single, fmt.Sprintf(`{"op":%q,"path":%q}`, k, p))
